@@ -96,7 +96,7 @@ class Iter:
             iterator = iterate(target)
         except Exception as e:
             raise TypeError('failed to iterate on instance of type %r at %r (got %r)'
-                            % (target.__class__.__name__, Path(*scope[Path]), e))
+                            % (target.__class__.__name__, scope[Path], e))
 
         base_path = scope[Path]
         for i, t in enumerate(iterator):
